@@ -148,6 +148,11 @@ pub fn step_family(ctx: &mut Ctx) {
                     Tree::Graph(crate::alpha::graph_small()),
                     Tree::name("UNBOUND"),
                     Tree::ins("NO.SUCH.INSTRUCTION"),
+                    // long lists (chunked / lazy unpacking would leave a packed tail behind)
+                    Tree::L((0..16).map(Tree::I).collect()),
+                    Tree::L((0..17).map(Tree::I).collect()),
+                    Tree::L((0..33).map(|k| if k % 5 == 0 { Tree::L(vec![Tree::I(k)]) } else { Tree::I(k) }).collect()),
+                    Tree::L((0..100).map(Tree::I).collect()),
                 ] {
                     let id = match ctx.take() {
                         Some(id) => id,
@@ -296,7 +301,7 @@ fn int_vectors(maxlen: usize) -> Vec<Vec<i32>> {
 
 pub fn loops_family(ctx: &mut Ctx) {
     let mut real = real_with_probe();
-    let nmax = if ctx.tier_thorough { 8 } else { 5 };
+    let nmax = if ctx.tier_thorough { 12 } else { 9 };
     let bs = bodies(ctx.tier_thorough);
     let mut programs: Vec<(String, Tree)> = vec![];
     for body in &bs {
@@ -313,6 +318,27 @@ pub fn loops_family(ctx: &mut Ctx) {
         for v in int_vectors(if ctx.tier_thorough { 4 } else { 3 }) {
             programs.push((format!("INTVECTOR.LOOP v={:?}", v), Tree::L(vec![Tree::IV(v), Tree::ins("INTVECTOR.LOOP"), body.clone(), Tree::I(99)])));
         }
+    }
+    // long straight-line lists with one EXEC-consuming instruction at position k (its operands lie across any
+    // chunk boundary an implementation might use)
+    for k in [0usize, 7, 14, 15, 16, 17, 30, 31, 32] {
+        for ins in ["EXEC.DUP", "EXEC.K", "CODE.QUOTE", "EXEC.POP"] {
+            let mut items: Vec<Tree> = (0..40).map(|j| Tree::I(1000 + j)).collect();
+            items[k] = Tree::ins(ins);
+            programs.push((format!("long-list {} at {}", ins, k), Tree::L(items)));
+        }
+        let mut items: Vec<Tree> = (0..40).map(|j| Tree::I(1000 + j)).collect();
+        items[k] = Tree::I(3);
+        items[k + 1] = Tree::ins("INDEX.DEFINE");
+        items[k + 2] = Tree::ins("EXEC.LOOP");
+        items[k + 3] = Tree::ins("PROBE");
+        programs.push((format!("long-list EXEC.LOOP at {}", k + 2), Tree::L(items)));
+    }
+    // long loops with the simplest bodies
+    for n in [17, 33, 100] {
+        let body = Tree::L(vec![Tree::ins("INDEX.CURRENT"), Tree::ins("PROBE"), Tree::ins("INTEGER.POP")]);
+        programs.push((format!("EXEC.LOOP n={}", n), Tree::L(vec![Tree::I(n), Tree::ins("INDEX.DEFINE"), Tree::ins("EXEC.LOOP"), body.clone(), Tree::I(99)])));
+        programs.push((format!("INTVECTOR.LOOP len={}", n), Tree::L(vec![Tree::IV((0..n).collect()), Tree::ins("INTVECTOR.LOOP"), Tree::L(vec![Tree::ins("PROBE"), Tree::ins("INTEGER.POP")]), Tree::I(99)])));
     }
     // loops inside loops, two levels, generated from the kinds
     for outer in 0..3 {
